@@ -55,6 +55,10 @@ func options(full bool) []option {
 		// the one built-in datum without shift parameters on another ellipsoid
 		// (a pure ellipsoid change)
 		{"datum=NAD27", "+datum=NAD27", true, 1, 0},
+		// a named datum together with an ellipsoid that is not the datum's own: the
+		// datum's ellipsoid wins (as in proj4js)
+		{"datum=potsdam+ellps=intl", "+ellps=intl +datum=potsdam", true, 1, 0},
+		{"datum=osgb36+ellps=WGS84", "+datum=osgb36 +ellps=WGS84", true, 1, 0},
 		// a unit given by its length (the yard) instead of by name
 		{"to_meter=0.9144", "+datum=WGS84 +to_meter=0.9144", true, 0.9144, 0},
 	}
